@@ -61,8 +61,8 @@ func (fl *FileList) removeFiles(entry lineInfo) error {
 			return err
 		}
 		for _, m := range names {
+			m = m[leadLength:]
 			if _, have := fl.entryMap[m]; have {
-				m = m[leadLength:]
 				delete(fl.entryMap, m)
 			}
 		}
